@@ -166,6 +166,33 @@ func (o concOp) run() (digest string) {
 		ja, _ := json.Marshal(wj.ToJSON(fa))
 		jb, _ := json.Marshal(wj.ToJSON(fb))
 		return res + ";" + sha(append(ja, jb...))
+	case "encode-failing-sink":
+		// the destination fails after a few bytes with an error private to this operation: the operation reports that error,
+		// and the same value then encodes into a healthy buffer (here and in every other operation) as if nothing had happened
+		own := fmt.Sprintf("sink-%d full", o.seed)
+		sink := &failingSink{left: int(o.seed % 5), err: fmt.Errorf("%s", own)}
+		var err error
+		switch o.seed % 3 {
+		case 0:
+			err = binary.Default.Encode(v, sink)
+		case 1:
+			err = binary.Default.EncodeEnveloped(wire.Envelope{Name: "m", Type: wire.Call, SeqID: int32(o.seed % 100), Value: v}, sink)
+		default:
+			w := binary.Default.Writer(sink)
+			err = sx.Apply(w, sx.Calls(v))
+			w.Close()
+		}
+		res := "noerr"
+		if err != nil {
+			res = "alien:" + err.Error()
+			if strings.Contains(err.Error(), own) {
+				res = "own"
+			}
+		}
+		if err := binary.Default.Encode(v, &enc); err != nil {
+			return res + ";err:" + err.Error()
+		}
+		return res + ";" + sha(enc.Bytes())
 	case "encode":
 		if err := binary.Default.Encode(v, &enc); err != nil {
 			return "err:" + err.Error()
@@ -299,7 +326,23 @@ func (o concOp) run() (digest string) {
 	return "unknown-kind"
 }
 
-var concKinds = []string{"encode", "decode", "stream-encode", "stream-decode", "gen-wire", "gen-stream", "envelope", "readrequest", "readrequest-legacy", "readrequest-bare", "decoderequest", "decode-large", "stream-decode-large", "decode-rejected"}
+var concKinds = []string{"encode", "decode", "stream-encode", "stream-decode", "gen-wire", "gen-stream", "envelope", "readrequest", "readrequest-legacy", "readrequest-bare", "decoderequest", "decode-large", "stream-decode-large", "decode-rejected", "encode-failing-sink"}
+
+// failingSink accepts a few bytes and then fails every write with its own error
+type failingSink struct {
+	left int
+	err  error
+}
+
+func (f *failingSink) Write(p []byte) (int, error) {
+	if len(p) <= f.left {
+		f.left -= len(p)
+		return len(p), nil
+	}
+	n := f.left
+	f.left = 0
+	return n, f.err
+}
 
 type echoHandler struct{}
 
@@ -447,6 +490,7 @@ func cmdC18(args []string) error {
 			}
 		}()
 		conc := make([]string, k)
+		alien := make([]bool, k)
 		var wg sync.WaitGroup
 		start := make(chan struct{})
 		for i := range ops {
@@ -456,6 +500,7 @@ func cmdC18(args []string) error {
 				<-start
 				for n := 0; n < 3; n++ {
 					d := ops[i].run()
+					alien[i] = alien[i] || strings.Contains(d, "sink-")
 					if n == 0 {
 						conc[i] = d
 					} else if d != conc[i] {
@@ -477,7 +522,8 @@ func cmdC18(args []string) error {
 			out.write(wj.J{"op": "c18ev", "round": round, "seq": int(e.Seq), "kind": e.Kind, "ev": e.Ev, "obj": e.Obj, "clean": e.Clean, "g": e.G})
 		}
 		for i := range ops {
-			out.write(wj.J{"op": "c18res", "round": round, "id": i, "kind": ops[i].kind, "base": base[i], "conc": conc[i]})
+			out.write(wj.J{"op": "c18res", "round": round, "id": i, "kind": ops[i].kind, "base": base[i], "conc": conc[i],
+				"alien": alien[i] || strings.Contains(base[i], "sink-")})
 		}
 		fr := frameRound(k, c.seed+int64(round))
 		fr["round"] = round
